@@ -253,6 +253,22 @@ def twin_oracle(line, ans):
     return None
 
 
+def with_sign_probes(line, rng, p=0.3):
+    """after an assignment / arithmetic operation on (register r, variable x): entailment queries about the
+    sign of x (x != 0, x <= -1, x >= 1, x <= 0, x >= 0).  Domains whose at() is weak (sign, constant,
+    congruence ...) are observable through them; a wrong 'true' is caught on the sampled stores."""
+    ops = line.split(" ; ")
+    out = [ops[0]]
+    for o in ops[1:]:
+        out.append(o)
+        t = o.split()
+        if t[0] in ("assign", "arith", "bit", "wassign", "select") and rng.random() < p:
+            r = t[1]; x = t[3] if t[0] in ("arith", "bit") else t[2]
+            for c in rng.sample(["C ne E 1 1 %s 0", "C le E 1 1 %s 1", "C le E 1 -1 %s 1", "C le E 1 1 %s 0", "C le E 1 -1 %s 0"], 2):
+                out.append("q_entails %s %s" % (r, c % x))
+    return " ; ".join(out)
+
+
 def histories(seed, prop, n, big=False, drop=(), maxvars=5, maxops=30, asc_widen=False, rel=False):
     """n histories; for a relational domain every second one is written in the octagon
     language (unit coefficients, x-y / x+y constraints, x := y + k assignments), which
@@ -267,6 +283,8 @@ def histories(seed, prop, n, big=False, drop=(), maxvars=5, maxops=30, asc_widen
             l = with_csts_after_leq(l)
         elif rel:
             l = with_csts(l, rng)
+        if prop == "C03":
+            l = with_sign_probes(l, rng)
         if asc_widen:
             l = ascending_widen(l)
         out.append(l)
@@ -298,6 +316,10 @@ def box_joins(seed, n):
         op = rng.choice(["join", "join", "join", "widen", "meet"])
         ops.append("%s 2 0 1" % op)
         ops.append("q_csts 2")
+        # what the result claims about the sign of each variable must hold on both operands' stores
+        for x in range(nv):
+            for c in rng.sample(["C ne E 1 1 %d 0", "C le E 1 1 %d 1", "C le E 1 -1 %d 1", "C le E 1 1 %d 0", "C le E 1 -1 %d 0"], 2):
+                ops.append("q_entails 2 %s" % (c % x))
         if op != "meet":
             ops.append("q_leq 0 2"); ops.append("q_leq 1 2")
         else:
@@ -312,6 +334,33 @@ def box_joins(seed, n):
         for x in range(nv):
             ops.append("q_entails 2 C ne E 1 1 %d %d" % (x, -c3[x]))
         out.append("hist 4 %d ; %s" % (nv, " ; ".join(ops)))
+    return out
+
+
+def cong_meets(seed, n):
+    """scripted meets of two arithmetic progressions x = A*k1 + a and x = B*k2 + b (moduli not coprime,
+    remainders different, a common element exists), then the result is pinned to a common element
+    (must not be bottom) and to an element of one operand only; with a dense sample of small stores"""
+    rng = random.Random(seed)
+    out = []
+    import math
+    while len(out) < n:
+        A, B = rng.choice([2, 4, 6, 3, 8, 9, 12]), rng.choice([4, 6, 10, 8, 9, 12, 15])
+        g = math.gcd(A, B)
+        if g == 1:
+            continue
+        a = rng.randrange(A); b = a % g + g * rng.randrange(B // g)
+        if a == b:
+            continue
+        com = [v for v in range(-7, 8) if v % A == a % A and v % B == b % B]
+        if not com:
+            continue
+        V = rng.choice(com)
+        ops = ["arith 0 mul 0 1 k %d" % A, "arith 0 add 0 0 k %d" % a,
+               "arith 1 mul 0 2 k %d" % B, "arith 1 add 0 0 k %d" % b,
+               rng.choice(["meet 2 0 1", "meet 2 1 0"]), "q_at 2",
+               "assume 2 1 C eq E 1 1 0 %d" % (-V), "q_at 2"]
+        out.append("hist 3 3 ; " + " ; ".join(ops))
     return out
 
 
